@@ -44,8 +44,19 @@ var engineSwaps = map[string][]swap{
 }
 
 // buildOverlay writes rewritten copies into scratch and returns the overlay file path.
+//
+// Sources are read from /repo's working tree. When $VERIF_REPO names another
+// copy of the repository (mutant testing without touching /repo), sources are
+// read from there instead and every non-test .go file that differs from /repo's
+// is overlaid too; overlay keys are always /repo paths because that is where the
+// module replacement points.
 func buildOverlay(repo, scratch string, swaps []swap) (string, error) {
 	replace := map[string]string{}
+	src := repo
+	if alt := os.Getenv("VERIF_REPO"); alt != "" {
+		src = alt
+	}
+	swapFor := map[string]map[string]string{}
 	for _, sw := range swaps {
 		// skip swaps whose shim packages do not exist yet
 		missing := false
@@ -54,36 +65,52 @@ func buildOverlay(repo, scratch string, swaps []swap) (string, error) {
 				missing = true
 			}
 		}
-		if missing {
-			continue
+		if !missing {
+			swapFor[sw.Dir] = sw.Imports
 		}
-		dir := filepath.Join(repo, sw.Dir)
-		ents, err := os.ReadDir(dir)
+	}
+	err := filepath.WalkDir(src, func(path string, d os.DirEntry, err error) error {
 		if err != nil {
-			return "", fmt.Errorf("overlay: %w", err)
+			return err
 		}
-		for _, e := range ents {
-			name := e.Name()
-			if e.IsDir() || !strings.HasSuffix(name, ".go") || strings.HasSuffix(name, "_test.go") {
-				continue
+		rel, _ := filepath.Rel(src, path)
+		if d.IsDir() {
+			if d.Name() == ".git" || rel == "cmd" || d.Name() == "testdata" {
+				return filepath.SkipDir
 			}
-			src := filepath.Join(dir, name)
-			out, changed, err := rewriteImports(src, sw.Imports)
-			if err != nil {
-				return "", err
-			}
-			if !changed {
-				continue
-			}
-			dst := filepath.Join(scratch, "overlay", sw.Dir, name)
-			if err := os.MkdirAll(filepath.Dir(dst), 0o755); err != nil {
-				return "", err
-			}
-			if err := os.WriteFile(dst, out, 0o644); err != nil {
-				return "", err
-			}
-			replace[src] = dst
+			return nil
 		}
+		name := d.Name()
+		if !strings.HasSuffix(name, ".go") || strings.HasSuffix(name, "_test.go") {
+			return nil
+		}
+		dir := filepath.Dir(rel)
+		imports := swapFor[dir]
+		out, changed, err := rewriteImports(path, imports)
+		if err != nil {
+			return err
+		}
+		if src != repo && !changed {
+			orig, err := os.ReadFile(filepath.Join(repo, rel))
+			if err != nil || !bytesEqual(orig, out) {
+				changed = true
+			}
+		}
+		if !changed {
+			return nil
+		}
+		dst := filepath.Join(scratch, "overlay", rel)
+		if err := os.MkdirAll(filepath.Dir(dst), 0o755); err != nil {
+			return err
+		}
+		if err := os.WriteFile(dst, out, 0o644); err != nil {
+			return err
+		}
+		replace[filepath.Join(repo, rel)] = dst
+		return nil
+	})
+	if err != nil {
+		return "", fmt.Errorf("overlay: %w", err)
 	}
 	ov := struct {
 		Replace map[string]string
@@ -92,6 +119,8 @@ func buildOverlay(repo, scratch string, swaps []swap) (string, error) {
 	p := filepath.Join(scratch, "overlay.json")
 	return p, os.WriteFile(p, b, 0o644)
 }
+
+func bytesEqual(a, b []byte) bool { return string(a) == string(b) }
 
 func rewriteImports(path string, imports map[string]string) ([]byte, bool, error) {
 	src, err := os.ReadFile(path)
